@@ -86,14 +86,13 @@ theorem parse_facts (uri : Bytes) (u : URI) (h : parseURI [] uri = .ok u) :
             simpa [this] using hsch
 
 theorem lastIndexOf_none (c : UInt8) (b : Bytes) (h : c ∉ b) : lastIndexOf c b = none := by
-  unfold lastIndexOf
-  have : b.reverse.findIdx? (· == c) = none := by
-    rw [List.findIdx?_eq_none_iff]
-    intro x hx
-    have hx' : x ∈ b := by simpa using hx
-    apply Bool.eq_false_iff.2
-    intro hh; have := eq_of_beq hh; subst this; exact h hx'
-  rw [this]; rfl
+  induction b with
+  | nil => rfl
+  | cons a t ih =>
+    simp only [List.mem_cons, not_or] at h
+    have ha : (a == c) = false := by
+      apply Bool.eq_false_iff.2; intro hh; exact h.1 (eq_of_beq hh).symm
+    simp [lastIndexOf, ih h.2, ha]
 
 theorem splitLast_none (c : UInt8) (b : Bytes) (h : c ∉ b) : splitLast c b = none := by
   unfold splitLast; rw [lastIndexOf_none c b h]
